@@ -349,6 +349,49 @@ def run_children(batch, d, ev, fails):
             ev.case(key=[item["src"], seed], nontrivial=False, labels=("child:seed=" + seed,))
 
 
+# ---- single defs of templates that inherit -----------------------------------
+def check_inheriting_defs(ev, fails, d):
+    """P8 for a template in an inheritance chain: get_def(name).render() must give the text the def produces inside the
+    full render (its self / local / parent / next are those of the full render)"""
+    from mako.lookup import TemplateLookup
+
+    k = next(_k)
+    base = ('<%%def name="label()">BASE-l\u00e4bel</%%def><%%def name="wrapper(x)">w(${x}:${self.label()}:${local.label()})</%%def>'
+            "B[${next.body()}]")
+    mid = ('<%%inherit file="/c08i_%d_base.html"/><%%def name="label()">mid-label</%%def>M[${next.body()}]' % k)
+    child = ('<%%inherit file="/c08i_%d_mid.html"/><%%def name="label()">child-l\u00e4bel</%%def>'
+             '<%%def name="tag(x)">tag(${x}) ${local.label()}@${local.uri} self=${self.label()} over ${parent.label()} top=${parent.wrapper(x)}</%%def>'
+             '<%%def name="plain(x)">plain(${x})</%%def>'
+             "{${tag('X')}}{${plain('Y')}}" % k)
+    T = {"/c08i_%d_base.html" % k: base.replace("%%", "%"), "/c08i_%d_mid.html" % k: mid, "/c08i_%d_child.html" % k: child}
+    root = os.path.join(d, "inh%d" % k)
+    os.makedirs(root)
+    for u, s_ in T.items():
+        with open(os.path.join(root, u.lstrip("/")), "wb") as fh:
+            fh.write(s_.encode("utf-8"))
+    for name, lk in (("put_string", None), ("files", TemplateLookup(directories=[root])),
+                     ("module_directory", TemplateLookup(directories=[root], module_directory=os.path.join(d, "inhmod%d" % k)))):
+        if lk is None:
+            lk = TemplateLookup()
+            for u, s_ in T.items():
+                lk.put_string(u, s_)
+        t = lk.get_template("/c08i_%d_child.html" % k)
+        full = _run(lambda: t.render_unicode())
+        case = {"part": "inheriting-def", "path": name}
+        if full[0] != "ok":
+            fails.setdefault("inheriting-def:full", Failure(case, "full render failed: %r" % (full,), "inheriting-def:full"))
+            continue
+        import re as _re
+
+        parts = _re.findall(r"\{(.*?)\}", full[1])
+        for dn, arg, exp in (("tag", "X", parts[0]), ("plain", "Y", parts[1])):
+            got = _run(lambda: t.get_def(dn).render_unicode(x=arg))
+            if got != ("ok", exp):
+                f = Failure(case, "path %s: def %s inside the full render gives %r, get_def(%r).render() gives %r" % (name, dn, exp, dn, got), "inheriting-def:" + dn)
+                fails.setdefault(f.key, f)
+            ev.case(key=[name, dn, k], nontrivial=True, labels=("inheriting-def",))
+
+
 # ---- colliding URIs ---------------------------------------------------------
 def check_collision(ev, fails):
     from mako.template import Template
@@ -411,6 +454,8 @@ def run(ctx):
     fails = {}
     core.setup_repo()
     check_collision(ctx.ev, fails)
+    with core.TempDir() as d:
+        check_inheriting_defs(ctx.ev, fails, d)
     for f in fails.values():
         ctx.fail(f)
     n = ctx.pick(10, 250)
@@ -436,6 +481,8 @@ def replay(case):
                 check_cli(case, ev, d)
             elif part == "collision":
                 check_collision(ev, fails)
+            elif part == "inheriting-def":
+                check_inheriting_defs(ev, fails, d)
             elif part == "nsset":
                 from mako.lookup import TemplateLookup
 
